@@ -147,4 +147,50 @@ theorem C14_full_sound_tiered {w : Wl} (hm : Mk w.v) (ht : w.v.tiered = true) (n
   rw [C14_full_tiered_active_root hm ht now i _ m proof hi hroot] at h
   exact C14_sound_blake3 members r hr hleaf m hml proof h
 
+/-! ## Non-vacuity: concrete Merkle histories (kernel-evaluated; the hashes themselves are not evaluated here) -/
+
+def exG14 : Nat := Gen.sg_utils_GENESIS_MINT_START_TIME
+
+/-- a 64-character lower-case hex string -/
+def exRoot32 : List Nat := (List.range 64).map fun i => if i % 2 = 0 then 97 else 49
+/-- a 32-character hex string -/
+def exRoot16 : List Nat := (List.range 32).map fun i => if i % 2 = 0 then 98 else 50
+
+def exMsgMerkle : InstMsg :=
+  { admins := [10], adminsMutable := true, start := exG14 + 100, end_ := exG14 + 200, mintPrice := ⟨0, 5⟩, perAddr := 40,
+    memberLimit := 0, whaleCap := none, members := [], stages := [], stageMembers := [], roots := [exRoot32],
+    uriOk := true, uris := none, discountBps := none }
+
+def exOps14 : List Op :=
+  [.fund 10 ⟨0, 5000000000⟩,
+   .instantiate Variant.merkle 10 [⟨0, 1000000000⟩] 1000 exMsgMerkle,
+   .exec 10 [] (.updateEndTime (exG14 + 150)),
+   .exec 10 [] .unknown,
+   .exec 10 [] (.addMembers 0 [(20, 0)]),
+   .exec 10 [⟨0, 3⟩] .freeze]
+
+example : ((run (init exG14) exOps14).wl.map fun w => (w.roots == [exRoot32], w.end_ - exG14, w.mutable_, w.g.feesPaid)) =
+    some (true, 150, false, 1000000000) := by rfl
+
+example : Mk Variant.merkle ∧ Mk Variant.tieredMerkle := ⟨rfl, rfl⟩
+
+/-- a malformed root (63 characters) is refused -/
+def exMsgMerkleBad : InstMsg :=
+  { exMsgMerkle with roots := [List.drop 1 exRoot32] }
+example : accepted (run (init exG14) [.fund 10 ⟨0, 5000000000⟩])
+    (.instantiate Variant.merkle 10 [⟨0, 1000000000⟩] 1000 exMsgMerkleBad) = false := by rfl
+
+/-- tiered Merkle: two stages, two 16-byte roots; no active stage before the first window ⇒ the query errors whatever the proof -/
+def exMsgTMerkle : InstMsg :=
+  { admins := [10], adminsMutable := true, start := 0, end_ := 0, mintPrice := ⟨0, 0⟩, perAddr := 0,
+    memberLimit := 0, whaleCap := none, members := [], stageMembers := [], roots := [exRoot16, exRoot16],
+    uriOk := true, uris := some [7, 8], discountBps := none,
+    stages := [{ name := 1, start := exG14 + 100, stop := exG14 + 200, denom := 0, price := 5, pal := 50, mcl := none },
+               { name := 2, start := exG14 + 200, stop := exG14 + 300, denom := 0, price := 6, pal := 1, mcl := some 3 }] }
+
+example : ((run (init exG14) [.fund 10 ⟨0, 5000000000⟩, .instantiate Variant.tieredMerkle 10 [⟨0, 1000000000⟩] 1000 exMsgTMerkle]).wl.map
+      fun w => (w.roots.length, w.stages.length, activeIdx w (exG14 + 99), activeIdx w (exG14 + 200),
+                qHasMemberMerkle w (exG14 + 99) [1, 2, 3] [])) =
+    some (2, 2, none, some 0, none) := by rfl
+
 end LP
